@@ -280,6 +280,7 @@ protected:
 		}
 		numerator /= b;
 		denominator /= b;
+		if (numerator.iszero()) negative = false; // zero has a single representation: +0/1
 	}
 	// conversion functions
 	// convert to signed int: TODO, SFINEA
